@@ -3,6 +3,8 @@
 A1  every operator whose exact result can leave the type raises Overflow (incl. unary minus and signed division)
 A2  casts are silent and width-driven; extension fills exactly the gap it opened and uses the source type's signedness
 A3  each operator is lowered by its own arithmetic circuit; rewrites into other operators only where listed / guarded
+A6  shape of the ripple-carry adder (LSB first, x[i] / y[i] of one position, carry rippled, (sum, last carry, carry into the last
+    position) returned) and of the Add arm's overflow bit (unsigned: last carry; signed: xor of the last two carries)
 A5  a negative literal factor must negate the operand before summing: -(x + .. + x) panics for products equal to the minimum value
 A4  the constant-multiplication rewrite splits the literal into magnitude and sign: every rewritten result is returned on one
     edge of a test of that sign (a fast path that looks at the magnitude only drops the sign)
@@ -339,5 +341,104 @@ def rule_a5(ctx):
     return res
 
 
+def rule_a6(ctx):
+    """Ripple-carry shape of the adder and the way the Add arm picks its overflow bit."""
+    res = RuleResult("A6", "the adder ripples the carry from the least significant bit; signed overflow = last two carries differ, unsigned = last carry")
+    fid = "circuit::CircuitBuilder::push_addition_circuit"
+    body = ctx.body(fid)
+    adders = [(b, t) for b, t in body.calls() if mir.last_seg(mir.callee(t) or "") == "push_adder"]
+    if len(adders) != 1:
+        raise AnchorMissing("A6: push_addition_circuit no longer calls push_adder once (in a loop)")
+    ab, at = adders[0]
+    loops = [lp for lp in body.loops() if ab in lp["body"]]
+    if not loops:
+        raise AnchorMissing("A6: push_adder is not called in a loop")
+    lp = min(loops, key=lambda l: len(l["body"]))
+    # least significant bit first: bit vectors are MSB first, so the loop runs over (0..bits).rev()
+    nxt = [b for b in lp["body"] if body.term(b) and body.term(b)["k"] == "call" and mir.last_seg(mir.callee(body.term(b)) or "") == "next"]
+    revd = any("Rev<" in (mir.callee(body.term(b)) or "") or "Rev<" in body.term(b)["args"][0].get("place", {}).get("ty", "") for b in nxt)
+    if revd:
+        res.ok({"clause": "direction", "verdict": "bits are added from the last (least significant) to the first"})
+    else:
+        res.bad(Finding("A6", fid, "adder does not start at the least significant bit", "the loop over the bit positions is not reversed: the carry would ripple from the most significant bit", at["sp"]))
+    # operands: x[i], y[i] with the same i; carry in = loop-carried local that receives this call's second result
+    ix = []
+    for a in at["args"][1:3]:
+        k = None
+        if a["k"] in ("copy", "move"):
+            for d in body.defs().get(a["place"]["l"], []):
+                if d[0] == "assign" and d[3]["rv"]["k"] == "use" and d[3]["rv"]["op"]["k"] in ("copy", "move"):
+                    pp = d[3]["rv"]["op"]["place"]
+                    idx = [e for e in pp["p"] if e["k"] == "index"]
+                    if idx:
+                        k = (pp["l"], frozenset((r, tuple(p)) for (r, p) in body.trace({"l": idx[0]["local"], "p": []})))
+        ix.append(k)
+    if ix[0] and ix[1] and ix[0][0] != ix[1][0] and ix[0][1] == ix[1][1] and {ix[0][0], ix[1][0]} == {2, 3}:
+        res.ok({"clause": "operands", "verdict": "push_adder(x[i], y[i], carry) with one i"})
+    else:
+        res.bad(Finding("A6", fid, "adder operands are not x[i], y[i] of one position", "found %s" % (ix,), at["sp"]))
+    cin = mir.base_local(body, at["args"][3])
+    carried = False
+    prev_local = None
+    upd_pos = prev_pos = None
+    for b in lp["body"]:
+        for i_, st in enumerate(body.blocks[b]["stmts"]):
+            if st["k"] == "assign" and st["place"]["l"] == cin and not st["place"]["p"] and st["rv"]["k"] == "use":
+                if any(r[0] == "call" and r[1] == ab and p == ("1",) for (r, p) in body.trace_operand(st["rv"]["op"], through={})):
+                    carried = True
+                    upd_pos = (b, i_)
+            if st["k"] == "assign" and st["rv"]["k"] == "use" and not st["place"]["p"] and mir.base_local(body, st["rv"]["op"]) == cin and st["place"]["l"] != cin and \
+                    len(body.defs().get(st["place"]["l"], [])) > 1:
+                prev_local = st["place"]["l"]
+                prev_pos = (b, i_)
+    if prev_pos and upd_pos:
+        before = (prev_pos[0] == upd_pos[0] and prev_pos[1] < upd_pos[1]) or (prev_pos[0] != upd_pos[0] and body.dominates(prev_pos[0], upd_pos[0]))
+        if not before:
+            res.bad(Finding("A6", fid, "previous carry saved after the carry was updated", "the carry into the last position must be copied before the carry is overwritten with the new carry out; otherwise both returned carries are equal and signed overflow is never seen", at["sp"]))
+            prev_local = None
+    if carried:
+        res.ok({"clause": "carry", "verdict": "carry in = carry out of the previous position"})
+    else:
+        res.bad(Finding("A6", fid, "carry is not rippled", "the carry input of push_adder is not the loop-carried second result of the previous push_adder", at["sp"]))
+    # result tuple: (sum, carry, carry before the last position)
+    ret = None
+    for blk in body.blocks:
+        for st in blk["stmts"]:
+            if st["k"] == "assign" and st["place"]["l"] == 0 and st["rv"]["k"] == "aggregate" and len(st["rv"]["ops"]) == 3:
+                ret = st
+    if ret and mir.base_local(body, ret["rv"]["ops"][1]) == cin and prev_local is not None and mir.base_local(body, ret["rv"]["ops"][2]) == prev_local:
+        res.ok({"clause": "results", "verdict": "returns (sum, last carry, carry into the last position)"})
+    else:
+        res.bad(Finding("A6", fid, "returned carries", "the adder must return the last carry and the carry into the most significant position, in this order", (ret or at)["sp"]))
+    # Add arm: overflow selection
+    f, cb = _body(ctx)
+    succ = cb.pruned_succ({INNER: "Op", OP0: "Add"})
+    region = cb.reachable([0], succ=succ)
+    adds = [b for b in region if cb.term(b)["k"] == "call" and mir.callee(cb.term(b)) == fid]
+    raises = [(b, cb.term(b)) for b in region if cb.term(b)["k"] == "call" and mir.callee(cb.term(b)) == C02.PUSH_PANIC_IF]
+    if len(adds) != 1 or not raises:
+        raise AnchorMissing("A6: the Add arm no longer calls push_addition_circuit once and raises")
+    srcs = set()
+    for b, t in raises:
+        for (r, p) in cb.trace_operand(t["args"][1]):
+            srcs.add((r[0], r[1] if r[0] == "call" else None, tuple(p), mir.last_seg(r[2] or "") if r[0] == "call" else None))
+    plain = any(k == "call" and bb == adds[0] and p == ("1",) for (k, bb, p, n) in srcs)
+    xors = [bb for (k, bb, p, n) in srcs if k == "call" and n == "push_xor"]
+    xor_ok = False
+    for xb in xors:
+        xt = cb.term(xb)
+        ps = {tuple(p) for a in xt["args"][1:3] for (r, p) in cb.trace_operand(a) if r[0] == "call" and r[1] == adds[0]}
+        if ps == {("1",), ("2",)}:
+            # the xor is taken on the signed edge
+            edges = _signed_true_edges(cb, region)
+            if C02._dominated_by_edges(cb, edges, xb):
+                xor_ok = True
+    if plain and xor_ok:
+        res.ok({"clause": "overflow", "verdict": "signed: xor(last carry, carry into the last position) on the is_signed edge; unsigned: last carry"})
+    else:
+        res.bad(Finding("A6", f["id"], "overflow bit of the addition", "expected: unsigned -> the last carry; signed (on the is_signed edge) -> xor of the last two carries; found unsigned ok: %s, signed ok: %s" % (plain, xor_ok), raises[0][1]["sp"]))
+    return res
+
+
 def run(ctx):
-    return ctx.run_rules([rule_a1, rule_a2, rule_a3, rule_a4, rule_a5])
+    return ctx.run_rules([rule_a1, rule_a2, rule_a3, rule_a4, rule_a5, rule_a6])
